@@ -329,6 +329,8 @@ def replay(oid, kwargs, model, data):
     from pyxel.observation.misc import create_new_processor
     from pyxel.pipelines import DetectionPipeline, ModelFunction, Processor
 
+    if data["fn"] == "run_mutating":
+        return _replay_run_mutating(kwargs)
     if data["fn"] != "step":
         return False, {}
     entry, key = kwargs["entry"], kwargs["key"]
@@ -404,3 +406,41 @@ def replay(oid, kwargs, model, data):
     after = snap(proc)
     diff = {k_: [before[k_], after[k_]] for k_ in before if before[k_] != after[k_]}
     return bool(diff), {"changed_in_caller": {k_: str(v_)[:120] for k_, v_ in diff.items()}}
+
+
+def _replay_run_mutating(kwargs):
+    """Concrete: a model appending to its list argument / bumping the detector memory, run twice through the real sequential path."""
+    import pyxel
+    from pyxel.exposure import Readout
+    from pyxel.observation import Observation, ParameterValues
+    from pyxel.pipelines import DetectionPipeline, ModelFunction
+
+    from .common import make_ccd
+
+    seen = []
+
+    def hook(d, tag, kw, rec):
+        if "opt" in kw:
+            kw["opt"].append(99)
+            kw["cfg"]["a"] = kw["cfg"]["a"] + 1
+            seen.append((list(kw["opt"]), dict(kw["cfg"]), d._memory.get("counter", 0)))
+        d._memory["counter"] = d._memory.get("counter", 0) + 1
+        if d.pixel._array is None:
+            d.pixel.array = np.zeros((2, 2))
+
+    vxprobes.reset(hook)
+    try:
+        pipe = DetectionPipeline(scene_generation=[ModelFunction(name="init", func="vxprobes.init_buckets")],
+                                 photon_collection=[ModelFunction(func="vxprobes.probe", name="m1", arguments={"level": 0.1, "opt": [0.2], "cfg": {"a": 1}})])
+        det = make_ccd(2, 2)
+        det._memory["counter"] = 0
+        obs = Observation(parameters=[ParameterValues(key="pipeline.photon_collection.m1.arguments.level", values=[1.0, 2.0, 3.0])], readout=Readout(times=[1.0, 2.0][: kwargs["n"]]))
+        pyxel.run_mode(mode=obs, detector=det, pipeline=pipe)
+    finally:
+        vxprobes.reset(None)
+    caller_opt = pipe.photon_collection.m1.arguments["opt"]
+    caller_cfg = pipe.photon_collection.m1.arguments["cfg"]
+    n = kwargs["n"]
+    first_calls = seen[::n]  # first step of every run
+    bad = caller_opt != [0.2] or caller_cfg != {"a": 1} or det._memory.get("counter") != 0 or any(c[0] != [0.2, 99] or c[1] != {"a": 2} or c[2] != 0 for c in first_calls)
+    return bad, {"caller_opt_after": caller_opt, "caller_cfg_after": caller_cfg, "caller_memory_counter": det._memory.get("counter"), "first_call_of_each_run_saw": first_calls}
